@@ -260,7 +260,11 @@ def run_case(rec, case):
             items.append((role, vendor, cls))
     kconfig = None
     if kconf_lines or r.random() < 0.2:
-        kconfig = drive.fresh(wd, ".config")
+        # half of the configurations are written to ONE path that is re-generated for every case (what a build
+        # directory looks like): the content of the file decides, not what was read from that path earlier
+        reuse = r.random() < 0.5
+        kconfig = os.path.join(wd, "regenerated.config") if reuse else drive.fresh(wd, ".config")
+        rec.count("kconfig-path:" + ("regenerated-in-place" if reuse else "fresh"))
         with open(kconfig, "w", encoding="utf-8") as fh:
             fh.write("# generated\nCONFIG_OTHER=y\n" + "\n".join(kconf_lines) + "\n")
     indir = os.path.join(wd, f"in{case['n']}")
